@@ -101,6 +101,8 @@ func init() {
 
 func init() {
 	families["C15"] = &rt.Family{Prop: "C15", JudgeBuild: true, Module: "MC_C15", PackSize: 8,
+		// integer enums generated with the flag: the accepted set must stay the listed values
+		More: []rt.Extra{{Module: "MC_C08", Keep: func(u *rt.Unit) bool { return u.Opts().MinSizedInts }}},
 		Unbounded: []rt.ApaCheck{
 			{Module: "IntSizeInd", Inv: "Holds", Expect: "NoError", What: "for ALL integer constants: the chosen type holds the admitted interval whenever a 64-bit type can"},
 			{Module: "IntSizeInd", Inv: "Narrowest", Expect: "NoError", What: "no narrower signed or unsigned type holds the admitted interval"},
@@ -190,7 +192,13 @@ func init() {
 func init() {
 	families["C11"] = &rt.Family{Prop: "C11", Module: "MC_C11", PackSize: 1, JudgeBuild: true,
 		// allOf lists of two documents that hold the textually identical branch "$ref": "#/$defs/Base"
-		More: []rt.Extra{{Module: "MC_C10", ExtraCfg: tierCfg, Keep: func(u *rt.Unit) bool { return u.Str("ctx") == "twoall" }}},
+		More: []rt.Extra{{Module: "MC_C10", ExtraCfg: tierCfg, Keep: func(u *rt.Unit) bool { return u.Str("ctx") == "twoall" }},
+			// the allOf / anyOf contexts of the required-property family (required lists split over branches, a $ref
+			// branch requiring names another branch declares, nested objects declared by two branches)
+			{Module: "MC_C04", Keep: func(u *rt.Unit) bool {
+				c := u.Str("ctx")
+				return len(c) > 5 && (c[:5] == "allOf" || c == "anyOf")
+			}, Frac: frac(0.5, 1)}},
 		Select: func(units []*rt.Unit, tier string, rng *rand.Rand) []*rt.Unit {
 			if tier == "thorough" {
 				return units
